@@ -84,6 +84,8 @@ def run(tier):
 
     for job, e in zip(jobs, emits):
         c.replay("mixer", e)
+        for v in ("reinit-drained", "reinit-peeked", "reinit-mid"):
+            c.replay("mixer", e, variant=v)
         if job[2]:
             c.replay("mixer", e, variant="nested")
     c.exhaustive = True
